@@ -56,6 +56,84 @@ def features_dataset(inp):
     return ds
 
 
+def both_dataset(inp):
+    """abstract 'hist' input -> abstract dataset holding a pc-feature store and/or a template-feature store."""
+    sem = base_sem(len(inp['spike_templates']), inp['n_templates'], inp['n_channels'], inp['spike_templates'],
+                   spike_clusters=inp.get('spike_clusters'))
+    ds = D.render(sem, None, id_dtype=inp.get('id_dtype', 'uint32'))
+    files = ds['files']
+    fdt = inp.get('fdtype', 'float32')
+    f, t = inp.get('f'), inp.get('t')
+    if f is not None:
+        data = f['data']
+        nrows, npcs, ncl = len(data), f['npcs'], f['ncl']
+        files['pc_features.npy'] = {'dtype': fdt, 'shape': [nrows, npcs, ncl],
+                                    'data': [float(v) for r in data for pc in r for v in pc]}
+        if f['ind'] is not None:
+            files['pc_feature_ind.npy'] = {'dtype': inp.get('ind_dtype', 'uint32'), 'shape': [inp['n_templates'], ncl],
+                                           'data': [v for r in f['ind'] for v in r]}
+        if f['rows'] is not None:
+            files['pc_feature_spike_ids.npy'] = {'dtype': inp.get('rows_dtype', 'int64'), 'shape': [nrows],
+                                                 'data': list(f['rows'])}
+    if t is not None:
+        data = t['data']
+        nrows, ntl = len(data), t['ncl']
+        files['template_features.npy'] = {'dtype': fdt, 'shape': [nrows, ntl], 'data': [float(v) for r in data for v in r]}
+        if t['ind'] is not None:
+            files['template_feature_ind.npy'] = {'dtype': inp.get('ind_dtype', 'uint32'), 'shape': [inp['n_templates'], ntl],
+                                                 'data': [v for r in t['ind'] for v in r]}
+        if t['rows'] is not None:
+            files['template_feature_spike_ids.npy'] = {'dtype': inp.get('rows_dtype', 'int64'), 'shape': [nrows],
+                                                       'data': list(t['rows'])}
+    return ds
+
+
+def expand(segs):
+    """list given by rule: [['seg', start, step, count] | ['lit', [values]]] -> list of ints."""
+    out = []
+    for s in segs:
+        if s[0] == 'seg':
+            out.extend(s[1] + s[2] * i for i in range(s[3]))
+        else:
+            out.extend(s[1])
+    return out
+
+
+def big_dataset(inp):
+    """abstract 'big' input (everything by rule) -> abstract dataset.  Stored value of (row r, component p,
+    local column l) = (c1 r + c2 p + c3 l) mod M + 1 (an integer below 2^24: exact in float32);
+    spike_templates[s] = (a s + b) mod n_templates."""
+    import numpy as np
+    n, nt = inp['n_spikes'], inp['n_templates']
+    a, b = inp['trule']
+    st = ((a * np.arange(n, dtype=np.int64) + b) % nt).tolist()
+    sem = base_sem(n, nt, inp['n_channels'], st)
+    ds = D.render(sem, None, id_dtype=inp.get('id_dtype', 'uint32'))
+    files = ds['files']
+    rows = expand(inp['rows']) if inp['rows'] is not None else None
+    nrows = len(rows) if rows is not None else n
+    c1, c2, c3, M = inp['drule']
+    ncl = inp['ncl']
+    r = np.arange(nrows, dtype=np.int64)
+    if inp['what'] == 'features':
+        npcs = inp['npcs']
+        v = (c1 * r[:, None, None] + c2 * np.arange(npcs)[None, :, None] + c3 * np.arange(ncl)[None, None, :]) % M + 1
+        files['pc_features.npy'] = {'dtype': inp.get('fdtype', 'float32'), 'shape': [nrows, npcs, ncl],
+                                    'data': v.ravel().astype(float).tolist()}
+        pre = 'pc_feature'
+    else:
+        v = (c1 * r[:, None] + c3 * np.arange(ncl)[None, :]) % M + 1
+        files['template_features.npy'] = {'dtype': inp.get('fdtype', 'float32'), 'shape': [nrows, ncl],
+                                          'data': v.ravel().astype(float).tolist()}
+        pre = 'template_feature'
+    if inp['ind'] is not None:
+        files[pre + '_ind.npy'] = {'dtype': inp.get('ind_dtype', 'uint32'), 'shape': [nt, ncl],
+                                   'data': [x for row in inp['ind'] for x in row]}
+    if rows is not None:
+        files[pre + '_spike_ids.npy'] = {'dtype': inp.get('rows_dtype', 'int64'), 'shape': [nrows], 'data': rows}
+    return ds
+
+
 def pca_dataset(inp):
     """abstract 'pca' input -> abstract dataset with a stored spike-waveform subset and no feature file."""
     sem = base_sem(inp['n_spikes'], inp['n_templates'], inp['n_channels'], inp['spike_templates'], nsw=inp['nsamp'],
@@ -108,4 +186,36 @@ def walsh_waveforms(rng, n, nsamp, nc, offsets=True):
                 b = rng.choice([0, 0, 1, -2, 3])
                 for l in range(n):
                     w[l][j][k] += b
+    return w
+
+
+def helmert_waveforms(rng, k, nsamp, nc):
+    """(k, nsamp, nc) integer waveforms for ANY number k of spikes: on every channel min(3, k-1) or more sample
+    indices carry amplitude * (a distinct Helmert contrast (1, .., 1, -m, 0, .., 0) of the shuffled spike index)
+    + offset, the others are constant; the per-channel covariance over the spikes is exactly diagonal, every
+    column mean is an integer, and the min(3, k-1) largest variances are positive and strictly separated from
+    each other and from the rest."""
+    c = min(3, k - 1)
+    assert nsamp >= 3
+    w = [[[0] * nc for _ in range(nsamp)] for _ in range(k)]
+    for ch in range(nc):
+        perm = rng.sample(range(k), k)
+        while True:
+            nact = rng.randint(c, min(nsamp, k - 1)) if k > 1 else 0
+            active = rng.sample(range(nsamp), nact)
+            pats = rng.sample(range(1, k), nact) if nact else []
+            mags = [rng.randint(1, 6) for _ in range(nact)]
+            var = sorted((a * a * m * (m + 1) for a, m in zip(mags, pats)), reverse=True)
+            top = (var + [0])[:c + 1]
+            if all(top[i] > top[i + 1] for i in range(c)):
+                break
+        for j, m, a in zip(active, pats, mags):
+            sgn = rng.choice([1, -1])
+            for l in range(k):
+                p = 1 if l < m else (-m if l == m else 0)
+                w[perm[l]][j][ch] = sgn * a * p
+        for j in range(nsamp):
+            b = rng.choice([0, 0, 1, -2, 3])
+            for l in range(k):
+                w[l][j][ch] += b
     return w
